@@ -5,7 +5,7 @@
 From Coq Require Import String.
 From Coq Require Import List Arith NArith Bool.
 From Verif.Common Require Import Labels Packet.
-From Verif.C29 Require Export Model Spec ProofsSel ProofsPorts ProofsMain.
+From Verif.C29 Require Export Model Spec ProofsSel ProofsPorts ProofsMain ProofsValid.
 Import ListNotations.
 Open Scope N_scope.
 
@@ -36,6 +36,8 @@ Definition ex_conn (src : party) proto port : conn :=
   {| c_src := src; c_dst := pod_party 167837953 ex_db; c_proto := proto; c_dport := port |}.
 
 Example ex_np_ok : np_ok false ex_np = true. Proof. vm_compute. reflexivity. Qed.
+Example ex_np_hyps : k8s_np_valid ex_np = true /\ np_keys_ok ex_np = true /\ types_defaulted false ex_np = true.
+Proof. vm_compute. auto. Qed.
 (* allowed: selected pod from a matching namespace, port inside the merged range 80-83 *)
 Example ex_allowed : k8s_allows [ex_np] ex_cl (ex_conn (pod_party 167838000 ex_fe) 6 83) = true
   /\ cal_allows [conv_np ex_np] (cparty_of ex_cl (pod_party 167838000 ex_fe)) (cparty_of ex_cl (pod_party 167837953 ex_db)) 6 83 = true.
